@@ -135,6 +135,41 @@ def faithful_job(job):
             "case": {"kind": "faithful", "seed": job["seed"], "doc": text}}
 
 
+# documented ranges (statement of C12 / constructors), copied here only to pick values just outside and inside them
+LIM = {"total_thickness": (0, 10000), "pixel_vert_size": (0, 1000), "pixel_horz_size": (0, 1000),
+       "quantum_efficiency": (0, 1), "charge_to_volt_conversion": (0, 100), "pre_amplification": (0, 10000),
+       "full_well_capacity": (0, 10000000), "adc_bit_resolution": (4, 64)}
+CROSS = {"geometry": ["total_thickness", "pixel_vert_size", "pixel_horz_size"],
+         "characteristics": ["quantum_efficiency", "charge_to_volt_conversion", "pre_amplification", "full_well_capacity",
+                             "adc_bit_resolution"]}
+
+
+def cross_field_jobs(ctx):
+    """The limits of one quantity do not depend on its neighbours: a constructor call / document that gives a
+    second setting of the same section (absent, or at the low end of its range) together with the one under test."""
+    jobs = []
+    n = 0
+    for section, names in CROSS.items():
+        for f in names:
+            lo, hi = LIM[f]
+            fvals = [hi * 10, hi + 1, lo + 1 if f == "adc_bit_resolution" else (lo + hi) / 4]
+            for g in names:
+                if g == f:
+                    continue
+                for gv in (None, LIM[g][0]):
+                    for fv in fvals:
+                        for path in ("construct", "yaml"):
+                            n += 1
+                            kinds = KINDS if ctx.tier == "thorough" else [KINDS[n % 4]]
+                            for kind in kinds:
+                                if f not in settings.fields(kind)[section] or g not in settings.fields(kind)[section]:
+                                    continue
+                                jobs.append({"kind": kind, "ops": [{
+                                    "op": "set", "path": path, "key": ["detector", section, f], "val": settings.canon(fv),
+                                    "with": {"key": ["detector", section, g], "val": settings.canon(gv)}}]})
+    return jobs
+
+
 def run(ctx):
     _, cases = ctx.model_check("MC_Settings", f"MC_Settings_{ctx.tier}.cfg", export=True,
                                note="every (path, field, grid value around the documented limits) and every count of "
@@ -160,6 +195,7 @@ def run(ctx):
                                 for i, a in enumerate(hist) for b in hist[i + 1:])
             if ok:
                 jobs.append({"kind": kind, "ops": copy.deepcopy(hist)})
+    jobs += cross_field_jobs(ctx)
     traces = check.pmap(settings.run_history, jobs, chunksize=20)
     ctx.cov["replayed_cases"] += len(traces)
     ctx.sample({"op": jobs[3]["ops"], "kind": jobs[3]["kind"], "event": traces[3]["events"]})
